@@ -248,23 +248,28 @@ def d2_group(shape, op1, op2, a, b, c):
     o1, o2 = bop(op1), bop(op2)
     if shape == 'L':
         th = lambda: binop(op2, binop(op1, a, b), c)
-        tmpl = b'(%s ' + o1 + b' %s) ' + o2 + b' %s'
+        mk = lambda x, y, z: b'(' + x + b' ' + o1 + b' ' + y + b') ' + o2 + b' ' + z
     else:
-        th = lambda: binop(op1, a, binop(op2, b, c))
-        tmpl = b'%s ' + o1 + b' (%s ' + o2 + b' %s)'
+        def th():
+            if op1 == '&&' and not truth(a):
+                return 0
+            if op1 == '||' and truth(a):
+                return a
+            return binop(op1, a, binop(op2, b, c))
+        mk = lambda x, y, z: x + b' ' + o1 + b' (' + y + b' ' + o2 + b' ' + z + b')'
     A, B, C = lit(a), lit(b), lit(c)
     ty = tname(a) + tname(b) + tname(c)
-    g = Group('depth2', shape + ':' + OPNAME[op1] + '.' + OPNAME[op2], ty + (':i64' if big(a, b, c) else ''), ref_of(th), tmpl % (A, B, C))
+    g = Group('depth2', 'expr', ty + (':i64' if big(a, b, c) else ''), ref_of(th), mk(A, B, C))
     pm, am, im = params([a, b, c], False)
     pt, at, it = params([a, b, c], True)
-    g.add('runtime', b'mixed @F(' + pm + b') { return ' + tmpl % (b'a', b'b', b'c') + b'; }', am)
-    g.add('typed', b'mixed @F(' + pt + b') { return ' + tmpl % (b'a', b'b', b'c') + b'; }', at)
-    g.add('folded', b'mixed @F() { return ' + tmpl % (A, B, C) + b'; }')
+    g.add('runtime', b'mixed @F(' + pm + b') { return ' + mk(b'a', b'b', b'c') + b'; }', am)
+    g.add('typed', b'mixed @F(' + pt + b') { return ' + mk(b'a', b'b', b'c') + b'; }', at)
+    g.add('folded', b'mixed @F() { return ' + mk(A, B, C) + b'; }')
     Ta, Tb, Tc = (TDECL[tname(x)].encode() for x in (a, b, c))
     # partial folding: one runtime leaf, two literal leaves
-    g.add('fold-bc', b'mixed @F(' + Ta + b' a) { return ' + tmpl % (b'a', B, C) + b'; }', carg(a))
-    g.add('fold-ac', b'mixed @F(' + Tb + b' b) { return ' + tmpl % (A, b'b', C) + b'; }', carg(b))
-    g.add('fold-ab', b'mixed @F(' + Tc + b' c) { return ' + tmpl % (A, B, b'c') + b'; }', carg(c))
+    g.add('folded-bc', b'mixed @F(' + Ta + b' a) { return ' + mk(b'a', B, C) + b'; }', carg(a))
+    g.add('folded-ac', b'mixed @F(' + Tb + b' b) { return ' + mk(A, b'b', C) + b'; }', carg(b))
+    g.add('folded-ab', b'mixed @F(' + Tc + b' c) { return ' + mk(A, B, b'c') + b'; }', carg(c))
     return g
 
 
